@@ -26,9 +26,151 @@ def summary(ctx, needle, label):
     return (E, ret), b
 
 
+def loop_body(E, header, tail):
+    """blocks of the natural loop of back edge tail -> header"""
+    preds = {}
+    for idx, blk in E.fn.blocks.items():
+        t = blk.term
+        for (_l, tgt) in (t or {}).get("targets", []) if t and t["kind"] != "yield" else []:
+            preds.setdefault(tgt, set()).add(idx)
+    body, work = {header, tail}, [tail]
+    while work:
+        x = work.pop()
+        for p_ in preds.get(x, ()):
+            if p_ not in body:
+                body.add(p_)
+                work.append(p_)
+    return body
+
+
+def calendar_builder(ctx):
+    """every hour / day bucket the zone's range touches gets the zone"""
+    b = Builder(ctx, "time-temporal_calendar_index-{impl#0}-add_zone_range.", "TemporalCalendarIndex::add_zone_range", {})
+    E, q = b.E, ctx.q
+    r = b.mk("B-2", "TemporalCalendarIndex::add_zone_range files the zone under every hour bucket and every day bucket between "
+                    "the buckets of min_ts and max_ts: each loop iteration the condition `t <= end` admits inserts the zone id "
+                    "into the bucket of `t` (no further guard), the step equals the bucket width, and the bounds are the buckets "
+                    "of min_ts / max_ts - the point lookup answers from the hour bucket alone when it exists")
+    out = [b.results["B-2"]]
+    if not r:
+        return out
+    ins = oblig.events(E, r"RoaringBitmap::insert$|inherent::insert$|::insert$")
+    ins = [e for e in ins if len(e.args) > 1 and sym.describe(e.args[1]) == "arg:zone_id"]
+    bids = oblig.events(E, r"TemporalCalendarIndex::bucket_id$")
+    if not oblig.need_anchor(r, ins, "insert(zone_id) into a bucket bitmap") or not oblig.need_anchor(r, bids, "bucket_id"):
+        return out
+    loops = [(h, t, loop_body(E, h, t)) for (t, h) in E.back_edges]
+    r.nontrivial = True
+    seen_kinds = set()
+    for ev in ins:
+        inside = [(h, body) for (h, _t, body) in loops if ev.bb in body]
+        if not inside:
+            continue
+        header = min(inside, key=lambda x: len(x[1]))[0]
+        H = E.node_reach.get((header, ev.layer))
+        bid = [x for x in bids if x.layer == ev.layer and x.bb in min(inside, key=lambda x: len(x[1]))[1]]
+        if H is None or not bid:
+            r.status = "inconclusive"
+            r.notes.append("loop header / bucket_id call of an insert not found")
+            return out
+        bid = bid[0]
+        gran = sym.describe(bid.args[1]) if len(bid.args) > 1 else ""
+        kind = "hour" if "Hour" in gran else "day" if "Day" in gran else None
+        names = {"hour": ("t", "end", 3600, "Hour"), "day": ("td", "end_day", 86400, "Day")}.get(kind)
+        if names is None:
+            r.status = "inconclusive"
+            r.notes.append(f"granularity of a bucket insert not recognised: {gran[:60]}")
+            return out
+        seen_kinds.add(kind)
+        tt, en = E.var_term(ev.env, names[0]), E.var_term(ev.env, names[1])
+        key = E.to_term(bid.args[0], "u64")
+        if tt is None or en is None or key is None:
+            r.status = "inconclusive"
+            r.notes.append(f"loop variables {names[0]} / {names[1]} not resolved")
+            return out
+        r.anchors.append(f"{ev.short}@bb{ev.bb}.{ev.layer}")
+        span = f"{ev.span[0]}:{ev.span[1]}" if ev.span else None
+        # (a) the iteration admitted by `t <= end` performs the insert
+        res, model = q.check(H, z3.ULE(tt, en), z3.Not(ev.reach), domain=E.domain)
+        r.queries += 1
+        if res == z3.sat:
+            # a model a real segment can have (dates before 2038, range of at most 90 days) for the replay
+            nbs = [E.sym(f"naive_bucket_of#{i}", "u64") for i in range(4)]
+            real = [z3.URem(nbs[0], 86400) == 0, z3.URem(nbs[1], 3600) == 0, nbs[2] == nbs[0],
+                    nbs[3] == nbs[1] - z3.URem(nbs[1], 86400), z3.ULE(nbs[0], nbs[1]), z3.ULT(nbs[1], 1 << 31),
+                    z3.ULE(nbs[1] - nbs[0], 90 * 86400), z3.UGE(nbs[0], 86400)]
+            res_r, model_r = q.check(H, z3.ULE(tt, en), z3.Not(ev.reach), *real, domain=E.domain)
+            r.queries += 1
+            if res_r == z3.sat:
+                model = model_r
+            vals = {n: model.eval(E.sym(f"naive_bucket_of#{i}", "u64"), model_completion=True).as_long()
+                    for i, n in enumerate(("first_hour", "last_hour", "first_day", "last_day"))}
+            lo, hi = (vals["first_hour"], vals["last_hour"]) if kind == "hour" else (vals["first_day"], vals["last_day"])
+            r.status = "violated"
+            r.witness = {"what": f"a zone whose range spans the {kind} buckets {lo}..{hi} is not filed under a {kind} bucket inside that "
+                                 f"range (iteration {ev.layer} of the {kind} loop skips the insert although t <= end): an equality probe "
+                                 "answered from that bucket alone drops the zone",
+                         "span": span, "call": ev.func[:100], "path": [], "model": {k: str(v) for k, v in vals.items()}}
+            binary = native_binary(ctx.log)
+            if binary is None:
+                r.status = "inconclusive"
+                r.notes.append("native replay program did not build")
+                return out
+            probe = lo + (3600 if kind == "hour" else 86400) * ev.layer
+            rc, line = run_native(binary, ["calendar2", str(lo), str(max(hi, probe)), str(probe)])
+            r.witness["native"] = line
+            if rc != 3:
+                r.status = "inconclusive"
+                r.notes.append("counterexample did not reproduce on the real calendar index: " + line)
+            return out
+        if res != z3.unsat:
+            r.status = "inconclusive"
+            r.notes.append("solver returned unknown")
+            return out
+        # (b) key = bucket of t; t = bucket of min_ts + j * bucket width for some j within the unrolling;
+        #     end = bucket of max_ts
+        nb = {(sym.describe(e.args[0]), e.site) for e in oblig.events(E, r"naive_bucket_of$")}
+        first = [s_ for (a, s_) in nb if a == "arg:min_ts" and re.sub(r"@L\d+", "", s_) in
+                 ("naive_bucket_of#0" if kind == "hour" else "naive_bucket_of#2",)]
+        last = [s_ for (a, s_) in nb if a == "arg:max_ts" and re.sub(r"@L\d+", "", s_) in
+                ("naive_bucket_of#1" if kind == "hour" else "naive_bucket_of#3",)]
+        if not first or not last:
+            r.status = "inconclusive"
+            r.notes.append("naive_bucket_of(min_ts) / (max_ts) calls not found")
+            return out
+        t0s = [E.sym(s_, "u64") for s_ in first]
+        ends = [E.sym(s_, "u64") for s_ in last]
+        step = names[2]
+        res2, _ = q.check(ev.reach, z3.And([tt != t0 + step * j for t0 in t0s for j in range(ctx.k + 1)]), domain=E.domain)
+        res3, _ = q.check(ev.reach, z3.And([en != e_ for e_ in ends]), domain=E.domain)
+        r.queries += 2
+        if res2 != z3.unsat or res3 != z3.unsat:
+            r.status = "violated"
+            r.witness = {"what": f"the {kind} loop does not walk from the bucket of min_ts to the bucket of max_ts in steps of {step} s",
+                         "span": span, "call": ev.func[:100], "path": [], "model": {}}
+            return out
+        res, _ = q.check(ev.reach, key != tt, domain=E.domain)
+        r.queries += 1
+        entry = [x for x in oblig.events(E, r"HashMap::<u32, .*>::entry$|HashMap::entry$") if x.layer == ev.layer and x.bb in min(inside, key=lambda x: len(x[1]))[1]]
+        key_ok = bool(entry) and sym.describe(entry[0].args[1]).startswith(bid.site)
+        fld = sym.describe(entry[0].args[0]) if entry else ""
+        fld_ok = (f"'{kind}'" in fld) or (E.structs.name("engine::core::time::temporal_calendar_index::TemporalCalendarIndex",
+                                                          int(re.search(r"'field', (\d+)", fld).group(1))) == kind if re.search(r"'field', (\d+)", fld) else False)
+        if res != z3.unsat or not key_ok or not fld_ok:
+            r.status = "violated"
+            r.witness = {"what": f"the {kind} loop does not insert the zone under bucket_id(t, {names[3]}) in self.{kind}",
+                         "span": span, "call": ev.func[:100], "path": [], "model": {}}
+            return out
+    if seen_kinds != {"hour", "day"}:
+        r.status = "violated"
+        r.witness = {"what": f"add_zone_range fills only the {sorted(seen_kinds)} buckets", "span": None, "call": "add_zone_range", "path": [], "model": {}}
+    return out
+
+
 def obligations(ctx):
     q = ctx.q
     out = []
+    out += calendar_builder(ctx)
     r = Result("B-1", "calendar bucket ids preserve the order of timestamps (ts1 <= ts2 => bucket_id(ts1) <= "
                       "bucket_id(ts2), hour and day granularity), which the calendar's >= / <= / range lookups rely on")
     r.functions = ["TemporalCalendarIndex::bucket_id", "naive_bucket_of (inlined by substitution)"]
